@@ -374,7 +374,7 @@ const Prelude = `(set-logic ALL)
 (declare-const fzero Flt)
 (declare-fun tagIsPtr (Int) Bool)
 (define-fun wfptr ((p Ptr) (al Int)) Bool (and (<= 0 (pobj p)) (<= (pobj p) al) (=> (= (pobj p) 0) (= (poff p) 0)) (<= 0 (poff p))))
-(define-fun wfslice ((s Slice) (al Int)) Bool (and (<= 0 (sobj s)) (<= (sobj s) al) (<= 0 (soff s)) (<= 0 (slen s)) (<= (slen s) (scap s)) (<= (scap s) 4611686018427387904) (=> (= (sobj s) 0) (and (= (scap s) 0) (= (soff s) 0)))))
+(define-fun wfslice ((s Slice) (al Int)) Bool (and (<= 0 (sobj s)) (<= (sobj s) al) (<= 0 (soff s)) (<= 0 (slen s)) (<= (slen s) (scap s)) (<= (scap s) 1099511627776) (=> (= (sobj s) 0) (and (= (scap s) 0) (= (soff s) 0)))))
 (define-fun wfiface ((i Iface) (al Int)) Bool (and (<= 0 (itag i)) (wfptr (ipl i) al) (=> (= (itag i) 0) (= (ipl i) nilptr))))
 (define-fun tdiv ((a Int) (b Int)) Int (ite (>= a 0) (ite (> b 0) (div a b) (- (div a (- b)))) (ite (> b 0) (- (div (- a) b)) (div (- a) (- b)))))
 (define-fun tmod ((a Int) (b Int)) Int (- a (* b (tdiv a b))))
